@@ -7,8 +7,8 @@ ROLES = {
     "M": ["none", "assign", "aug", "walrus", "for", "for_leak", "def", "class", "import", "read"],
     "F": ["none", "assign", "aug", "walrus", "param", "for", "for_leak", "comp", "def", "class", "import", "global_assign", "global_read", "nonlocal_assign", "nonlocal_read", "nonlocal_aug", "read", "param_default"],
     "C": ["none", "assign", "aug", "aug_outer", "walrus", "for", "def", "class", "import", "global_assign", "nonlocal_assign", "read", "read_then_assign"],
-    "L": ["none", "param", "read", "walrus", "param_default"],
-    "K": ["none", "target", "read", "walrus", "iter_read"],
+    "L": ["none", "param", "read", "walrus", "param_default", "late_walrus", "inner_param"],
+    "K": ["none", "target", "read", "walrus", "iter_read", "filter_walrus"],
 }
 STMT_KINDS = "MFC"
 
@@ -130,6 +130,12 @@ def scope(node, ctx):
             expr = "(log(%d, 'pd', val(p))%s)" % (sid, inner)
         elif role == "walrus":
             expr = "(log(%d, 'w', (x := %s)), log(%d, 'post', val(x))%s)" % (sid, ctx.val(), sid, inner)
+        elif role == "late_walrus":
+            # the read comes BEFORE the walrus in the syntax tree and AFTER it at run time
+            expr = "((k := (lambda: val(x))), log(%d, 'w', (x := %s)), log(%d, 'post', k())%s)" % (sid, ctx.val(), sid, inner)
+        elif role == "inner_param":
+            # an inner lambda has a PARAMETER of the same spelling; the outer lambda reads the outer x
+            expr = "(log(%d, 'ip', (lambda x: val(x))(%s)), log(%d, 'rd', val(x))%s)" % (sid, ctx.val(), sid, inner)
         elif role == "none":
             expr = "(log(%d, 'in')%s)" % (sid, inner)
         else:
@@ -144,6 +150,9 @@ def scope(node, ctx):
             expr = "[(log(%d, 'rd', val(x), q)%s) for q in [%s]]" % (sid, inner, ctx.val())
         elif role == "iter_read":
             expr = "[(log(%d, 'ir', q)%s) for q in [val(x)]]" % (sid, inner)
+        elif role == "filter_walrus":
+            # the element reads x, the walrus sits in the filter (converted later, evaluated earlier)
+            expr = "[(log(%d, 'fw', val(x))%s) for q in [%s] if (x := q) is not None]" % (sid, inner, ctx.val())
         else:
             expr = "[(log(%d, 'in', q)%s) for q in [%s]]" % (sid, inner, ctx.val())
         if GEN_STYLE[0]:
@@ -238,8 +247,8 @@ def nested_expr_siblings():
     comprehension/lambda inside it"""
     outer_roles = ["assign", "param", "nonlocal_assign"]
     capturers = [("F", "read", []), ("F", "nonlocal_aug", []), ("C", "read", [])]
-    mids = [("K", "target"), ("L", "param"), ("K", "walrus"), ("K", "read"), ("L", "read"), ("K", "none"), ("L", "none")]
-    inners = [("K", "read"), ("L", "read"), ("K", "iter_read"), ("K", "target"), ("L", "param"), ("L", "param_default"), ("K", "walrus")]
+    mids = [("K", "target"), ("L", "param"), ("K", "walrus"), ("K", "read"), ("L", "read"), ("K", "none"), ("L", "none"), ("L", "late_walrus"), ("L", "inner_param"), ("K", "filter_walrus")]
+    inners = [("K", "read"), ("L", "read"), ("K", "iter_read"), ("K", "target"), ("L", "param"), ("L", "param_default"), ("K", "walrus"), ("K", "filter_walrus"), ("L", "late_walrus"), ("L", "inner_param")]
     for mrole in ("none", "assign"):
         for r1 in outer_roles:
             for cap in capturers:
